@@ -46,6 +46,79 @@ type parserRoles struct {
 	parseFns   map[*ssa.Function]bool // methods returning an AST value
 	all        []*ssa.Function
 	errorField string
+	// expectLike: the expectation helper and the methods that wrap it — they
+	// take the kind to expect, hand it on, and report true only when the
+	// expectation held (`demandPeek(kind)`: expectPeek plus an error text)
+	expectLike map[*ssa.Function]bool
+}
+
+// isExpect: cal is the expectation helper or a wrapper of it.
+func (pr *parserRoles) isExpect(cal *ssa.Function) bool {
+	return cal != nil && (cal == pr.expect || pr.expectLike[cal])
+}
+
+// findExpectWrappers fills expectLike (to a fixed point: wrappers of wrappers).
+func (pr *parserRoles) findExpectWrappers() {
+	pr.expectLike = map[*ssa.Function]bool{}
+	for changed := true; changed; {
+		changed = false
+		for _, fn := range pr.all {
+			if fn.Parent() != nil || fn == pr.expect || pr.expectLike[fn] || len(fn.Blocks) == 0 {
+				continue
+			}
+			ps, rs := sigParams(fn), sigResults(fn)
+			if len(ps) != 1 || !isNamed(ps[0], "token", "Type") || len(rs) != 1 || !isBoolType(rs[0]) {
+				continue
+			}
+			kind := fn.Params[len(fn.Params)-1]
+			var inner *ssa.Call
+			n, other := 0, false
+			for _, b := range fn.Blocks {
+				for _, ins := range b.Instrs {
+					c, ok := ins.(*ssa.Call)
+					if !ok {
+						continue
+					}
+					cal := c.Call.StaticCallee()
+					switch {
+					case pr.isExpect(cal) && len(c.Call.Args) == 2 && c.Call.Args[1] == ssa.Value(kind):
+						inner = c
+						n++
+					case cal == pr.advance || pr.isExpect(cal) || cal != nil && pr.parseFns[cal]:
+						other = true
+					}
+				}
+			}
+			if n != 1 || other {
+				continue
+			}
+			// true is returned only where the inner expectation held
+			good := true
+			for _, b := range fn.Blocks {
+				ret, ok := terminator(b).(*ssa.Return)
+				if !ok {
+					continue
+				}
+				v := returnOperand(ret, 0)
+				if v == ssa.Value(inner) {
+					continue
+				}
+				if k, ok := v.(*ssa.Const); ok && k.Value != nil && k.Value.Kind() == constant.Bool {
+					if !constant.BoolVal(k.Value) {
+						continue
+					}
+					if expectSuccessDominates(inner, ret) {
+						continue
+					}
+				}
+				good = false
+			}
+			if good {
+				pr.expectLike[fn] = true
+				changed = true
+			}
+		}
+	}
 }
 
 func parserFns(p *Program) []*ssa.Function {
@@ -149,6 +222,7 @@ func resolveParserRoles(p *Program, r *Reporter) *parserRoles {
 	if bad {
 		return nil
 	}
+	pr.findExpectWrappers()
 	return pr
 }
 
@@ -207,6 +281,12 @@ func (a *nilerr) nmr(v ssa.Value, fn *ssa.Function, depth int) bool {
 				}
 				return found
 			}
+		}
+	case *ssa.Extract:
+		// the node of `node, more := p.parseOperand()`: the first result of a
+		// parse function with further results
+		if v.Index == 0 {
+			return a.nmr(v.Tuple, fn, depth+1)
 		}
 	case *ssa.MakeInterface:
 		return a.nmr(v.X, fn, depth+1)
@@ -910,10 +990,38 @@ func ruleBlockOpen(p *Program, r *Reporter) {
 	}
 	// block parser: the parse function returning *ast.BlockStatement
 	var block *ssa.Function
+	// (a function with a second result is a helper that hands a block back —
+	// `parseElse() (*ast.BlockStatement, bool)` — not the parser of blocks; of
+	// several candidates the one with the statement loop is meant)
 	for fn := range pr.parseFns {
 		rs := sigResults(fn)
-		if isPointer(rs[0]) && isNamed(rs[0], "ast", "BlockStatement") {
-			block = fn
+		if len(rs) == 1 && isPointer(rs[0]) && isNamed(rs[0], "ast", "BlockStatement") {
+			loops := func(f *ssa.Function) bool {
+				for _, b := range f.Blocks {
+					for _, sc := range b.Succs {
+						if sc.Dominates(b) {
+							return true
+						}
+					}
+				}
+				for _, b := range f.Blocks {
+					for _, ins := range b.Instrs {
+						if cc := callOf(ins); cc != nil && cc.StaticCallee() != nil && cc.StaticCallee() != f && recvNamed(cc.StaticCallee(), "parser", "Parser") && !pr.parseFns[cc.StaticCallee()] {
+							for _, hb := range cc.StaticCallee().Blocks {
+								for _, sc := range hb.Succs {
+									if sc.Dominates(hb) {
+										return true
+									}
+								}
+							}
+						}
+					}
+				}
+				return false
+			}
+			if block == nil || loops(fn) && !loops(block) || loops(fn) == loops(block) && p.FnName(fn) < p.FnName(block) {
+				block = fn
+			}
 		}
 	}
 	if block == nil {
@@ -938,6 +1046,9 @@ func ruleBlockOpen(p *Program, r *Reporter) {
 						return false
 					}
 					cal := c2.Call.StaticCallee()
+					if pr.isExpect(cal) {
+						cal = pr.expect
+					}
 					switch cal {
 					case pr.expect:
 						k, isC := c2.Call.Args[1].(*ssa.Const)
@@ -1440,7 +1551,7 @@ func rulePratt(p *Program, r *Reporter) {
 			walkBackward(look, func(ins ssa.Instruction) bool {
 				if cc, ok := ins.(*ssa.Call); ok {
 					cal := cc.Call.StaticCallee()
-					if cal == pr.advance || cal == pr.expect {
+					if cal == pr.advance || pr.isExpect(cal) {
 						advanced = cc.Pos()
 						return true
 					}
